@@ -48,24 +48,26 @@ def _b(x):
 
 
 def scope(ctx, K, KP=None, stages=(), first_canon=False, pair_canon=False, emit_arcs=True, emit_classes=True,
-          emit_pairs=False, rot24=True, laws=True, workers=8, what=""):
+          emit_pairs=False, rot24=True, laws=True, workers=8, what="", pair_stride=1):
     """Model-check the oracle's laws on the lattice |c| <= K and collect the emitted cases."""
     KP = K if KP is None else KP
     invs = ["TypeOK"]
-    if laws:
+    if laws is True:
         invs += LAWS_A
         if "T" in stages:
             invs += LAWS_T
         if "P" in stages:
             invs += LAWS_P
+    elif laws:
+        invs += list(laws)
     if emit_arcs:
         invs.append("EmitArc")
     if emit_pairs:
         invs.append("EmitPair")
     cfg = (
-        "SPECIFICATION Spec\nCONSTANTS\n K = %d\n KP = %d\n Stages = {%s}\n FirstCanon = %s\n PairCanon = %s\n"
+        "SPECIFICATION Spec\nCONSTANTS\n K = %d\n KP = %d\n Stages = {%s}\n FirstCanon = %s\n PairCanon = %s\n PairStride = %d\n"
         " EmitArcs = %s\n EmitClasses = %s\n EmitPairs = %s\n WithRot24 = %s\n"
-        % (K, KP, ",".join('"%s"' % s for s in stages), _b(first_canon), _b(pair_canon), _b(emit_arcs), _b(emit_classes),
+        % (K, KP, ",".join('"%s"' % s for s in stages), _b(first_canon), _b(pair_canon), pair_stride, _b(emit_arcs), _b(emit_classes),
            _b(emit_pairs), _b(rot24))
         + "".join("INVARIANT %s\n" % i for i in invs)
         + "CHECK_DEADLOCK FALSE\n"
